@@ -34,6 +34,7 @@ class Cls : gt::Base<TT> {
   Cls(const TT& t, const This::Mode& m = This::Mode::M1);
   This::Mode mode() const;
   TT::Value value(std::vector<TT> vs, std::map<int, This::Mode> mm) const;
+  TT::Traits::Scalar scal(const TT::Traits::Scalar& sc, std::vector<TT::Traits::Scalar> sv) const;
   pair<TT, This> both(TT* p, const This& other);
   static This Make(TT@ raw);
   template<UU = {double, ns::C}>
@@ -45,7 +46,7 @@ template<TT = {%s}>
 TT fun(const TT& a, std::vector<TT::Value> v);
 }
 """
-IN_USE = ["Cls", "Base", "Mode", "M1", "M2", "A", "B", "C", "ns", "gt", "This", "Value", "std", "vector", "map", "int", "pair", "UU", "double",
+IN_USE = ["Traits", "Scalar", "scal", "sc", "sv", "Cls", "Base", "Mode", "M1", "M2", "A", "B", "C", "ns", "gt", "This", "Value", "std", "vector", "map", "int", "pair", "UU", "double",
           "t", "m", "vs", "mm", "p", "other", "raw", "u", "o", "a", "v", "mode", "value", "both", "Make", "tm", "prop", "fun", "void", "const",
           "operator", "static", "template", "class", "enum", "bool", "char", "size_t", "float", "typedef", "virtual", "namespace", "unsigned"]
 INSTS = ["ns::A", "ns::B", "ns::C"]
@@ -198,5 +199,5 @@ def conds(tier):
                 bounds="all 15 ordered non-empty subsets of a 3-element instantiation list, class + function template, pybind"),
         xh.Cond(M, "c13_independence_matlab", t(300, 900), kind="shape-bounded", path_timeout=90, examples=["order=3", "order=0"],
                 bounds="all 15 ordered non-empty subsets, pybind and MATLAB classdefs"),
-        xh.Cond(M, "c13_alpha_rename", t(300, 1800), examples=["s='T'", "s='X9'", "s='V'"], bounds="all unused identifiers of length <= %d as the parameter name" % (2 if q else 3)),
+        xh.Cond(M, "c13_alpha_rename", t(300, 1800), examples=["s='T'", "s='X9'", "s='V'", "s='ts'", "s='s'", "s='ar'", "s='e'"], bounds="all unused identifiers of length <= %d as the parameter name" % (2 if q else 3)),
     ]
